@@ -330,3 +330,10 @@ def test_fixed_F32_factor_table_with_one_impossible_row():
     p = Pr([{'a': 1}, {'a': 2}, {'a': 3}], probs=[.5, .5, 0.])
     assert tuple(float(x) for x in (p * .5).probs) == pytest.approx((.5, .5, 0.))
     assert tuple(float(x) for x in Pr([{'a': 1}, {'a': 2}], logits=[0., -np.inf]).probs) == (1.0, 0.0)
+
+
+def test_fixed_F33_dict_value_iteration_with_zero_probability_successor():
+    from msdm.algorithms import ValueIteration
+    m = Dict2MDP({'s': {'a': {'g': 1.0, 'pit': 0.0}}, 'g': {'a': {'g': 1.0}}, 'pit': {'a': {'pit': 1.0}}}, {('s', 'a'): -1.0},
+                 {'s': 1.0}, absorbing=['g'], gamma=0.9)
+    assert ValueIteration(_version='dict').plan_on(m).initial_value == pytest.approx(-1.0)
